@@ -6,7 +6,7 @@ from gen import regs, templates
 
 ID = "C10"
 THEOREMS = ["Bufr.C10.C10_static_refines", "Bufr.C10.C10_rejects", "Bufr.C10.C10_rejects_unknown", "Bufr.C10.C10_factor_count",
-            "Bufr.C10.C10_terminates", "Bufr.C10.C10_total_correct"]
+            "Bufr.C10.C10_terminates", "Bufr.C10.C10_total_correct", "Bufr.C10.C10_fuel_irrelevant"]
 RULE = ("exhaustive: every Table D entry of every shipped table set as a one-descriptor template, expanded with "
         "cyclic factor assignments; generated templates nesting fixed/delayed replication and Table D to depth 4 "
         "with all five class 31 factors; ill-formed variants (unknown descriptors, spans past the end, overlapping "
